@@ -247,6 +247,7 @@ func run(c *rig.Ctx) {
 	fileWriters(c)
 	ramStores(c)
 	protocolStreams(c)
+	quietWithoutWriter(c)
 
 	// (5) wiring through gameboy.New
 	c.Part("wiring", c.N(24, 180), func(i int64, r *rig.Rng) {
